@@ -245,6 +245,8 @@ Lemma read_vec_raw_fixed : forall E site nvalues base total m,
   vec_post nvalues m (read_vec_raw E site nvalues base total m).
 Proof.
   intros E site nvalues base total m HF Hb Ht. unfold read_vec_raw, vec_post. rewrite HF.
+  destruct (nvalues =? 0) eqn:C0.
+  { apply Z.eqb_eq in C0. split; [lia|split; [reflexivity|]]. simpl. split; [lia|lia]. }
   destruct (good (ms m)) eqn:G.
   - destruct (next_line (S (S (length (rest (ms m))))) (ms m) []) as [[line s']|] eqn:NL.
     + pose proof (next_line_slen _ _ _ _ _ NL) as HS.
@@ -258,9 +260,7 @@ Proof.
       * unfold len, set_ms; simpl. split; [lia|split; [reflexivity|exact I]].
       * exfalso. eapply rv_words_fixed; [| |exact Ht|exact RV]; lia.
     + exfalso. eapply next_line_total; [apply mu_le_fuel|eassumption].
-  - destruct (nvalues =? 0) eqn:C.
-    + apply Z.eqb_eq in C. split; [lia|split; [reflexivity|]]. simpl. split; [lia|lia].
-    + split; [lia|split; [reflexivity|exact I]].
+  - split; [lia|split; [reflexivity|exact I]].
 Qed.
 
 (* ------------------------------------------------------------------ common tools for the class readers *)
